@@ -90,7 +90,7 @@ def run(prog: Program, res: Result) -> None:
         for direction in (MIN, MAX):
             n_eval += 1
             try:
-                got, ev = evaluate(prog, name, direction)
+                got, ev = evaluate(prog, name, direction, ok=lambda g, _n=name, _d=direction: canon(g) == canon(spec(_n, _d)))
             except OrdDeviation as exc:
                 res.ob(False)
                 res.add(Finding(P, "C16.R1-helper-spec", f"helpers.{name}::{direction}", fi.loc(),
@@ -104,16 +104,17 @@ def run(prog: Program, res: Result) -> None:
             # a windowed/ordered list must be fresh (not the caller's list)
             res.ob(ok, f"{name}[{direction}] = {show(got)}", f"{name}:{direction}")
             if not ok:
+                when = (" when " + " and ".join(f"`{t}` {'holds' if b else 'does not hold'}" for (t, b) in ev.path)) if ev.path else ""
                 res.add(Finding(P, "C16.R1-helper-spec", f"helpers.{name}::{direction}", fi.loc(),
-                                f"helpers.{name} under direction {direction} returns {show(got)}; specified: {show(want)}"))
+                                f"helpers.{name} under direction {direction} returns {show(got)}{when}; specified: {show(want)}"))
             for (f2, node, msg) in ev.mutated_params:
                 res.add(Finding(P, "C16.R2-argument-not-mutated", construct_key(prog, node, f2.module),
                                 f"{f2.module.relpath}:{node.lineno}", f"helpers.{f2.name}: {msg}"))
     # sort_and_trim (no direction)
     fi = prog.func(f"{HELP}.sort_and_trim")
     try:
-        got, ev = evaluate(prog, "sort_and_trim", MIN)
         want = L("population", "objs", "ASC", ("FIRST", "population_size"), True)
+        got, ev = evaluate(prog, "sort_and_trim", MIN, ok=lambda g: g == want)
         ok = got == want
         n_eval += 1
         res.ob(ok, f"sort_and_trim = {show(got)}", "sort_and_trim")
@@ -196,6 +197,9 @@ def run(prog: Program, res: Result) -> None:
     # R4 / R5 base population helpers
     for (rule, node, msg) in check_population_helpers(prog):
         f = prog.func(f"{ABSTRACT}._greedy_select_population")
+        if rule == "UNDECIDED":
+            res.errors.append(msg + " (undecided)")
+            continue
         res.ob(False)
         res.add(Finding(P, f"C16.{rule}", construct_key(prog, node, f.module), f"{f.module.relpath}:{node.lineno}", msg))
     res.ob(True, "base population helpers: sorted-ascending pairing, extend+trim, replace+trim", "population-helpers")
@@ -400,22 +404,78 @@ def check_population_helpers(prog: Program, size_only: bool = False) -> list:
            and len(n.args) == 1 and dotted(n.args[0]) == ep]
     ext += [n for n in own_nodes(e) if isinstance(n, ast.AugAssign) and dotted(n.target) == "self._population" and dotted(n.value) == ep]
 
+    undecided = []
+
     def trim_of(fi, what):
+        """assignments `self._population = <the population_size cheapest of `what`, ascending>`, decided by the ORD
+        interpreter on the assigned expression (sort_and_trim(..), sort_by_cost(..)[:k], sorted(.., key=cost)[:k], ..)"""
+        import copy as _copy
+        from ..ord import Evaluator as _Ev, L as _L, OrdDeviation as _Dev, OrdUnknown as _Unk
+        from ..sgn import MIN as _MIN
         hits = []
         for n in own_nodes(fi):
-            if isinstance(n, ast.Assign) and dotted(n.targets[0]) == "self._population" and sem.is_call_to(fi, n.value, SAT):
-                a = sem.args(fi, n.value)
-                if dotted(a.get("population")) == what and dotted(a.get("population_size")) == "self._config.population_size" \
-                        and (size_only or set(k for k in a if not k.startswith("#")) <= {"population", "population_size"}):
-                    hits.append(n)
+            if not (isinstance(n, ast.Assign) and len(n.targets) == 1 and dotted(n.targets[0]) == "self._population"):
+                continue
+            val = _copy.deepcopy(n.value)
+
+            class _R(ast.NodeTransformer):
+                def visit_Attribute(self, a):
+                    if dotted(a) == "self._population":
+                        return ast.copy_location(ast.Name(id="__pop__", ctx=ast.Load()), a)
+                    if dotted(a) == "self._config.population_size":
+                        return ast.copy_location(ast.Name(id="__size__", ctx=ast.Load()), a)
+                    if dotted(a) in ("self._task.minmax", "task.minmax"):
+                        return ast.copy_location(ast.Name(id="__dir__", ctx=ast.Load()), a)
+                    return self.generic_visit(a)
+            val = ast.fix_missing_locations(_R().visit(val))
+            from ..ord import Scalar as _Sc
+            env = {"__pop__": _L("self._population"), "__size__": _Sc("self._config.population_size")}
+            for p_ in fi.params[1:]:
+                env[p_] = _L(p_)
+            uses_dir = any(isinstance(x_, ast.Name) and x_.id == "__dir__" for x_ in ast.walk(val))
+            from ..sgn import MAX as _MAX
+            verdicts = []
+            for d_ in ((_MIN, _MAX) if uses_dir else (_MIN,)):
+                # the task's own direction may be either; internal costs are always minimised, so the trim must keep the
+                # cheapest agents whichever it is
+                env_d = dict(env)
+                env_d["__dir__"] = ("DIR", d_)
+                try:
+                    got = _Ev(prog, _MIN).expr(fi, val, env_d)
+                except _Dev as exc:
+                    out.append(("R5-extend-and-trim" if fi is e else "R5-replace-and-trim", n, f"`{norm(n, 70)}`: {exc}"))
+                    verdicts.append("bad")
+                    continue
+                except _Unk as exc:
+                    undecided.append(f"{fi.name}: `{norm(n, 70)}` is not understood by the ORD interpreter ({exc})")
+                    verdicts.append("unk")
+                    continue
+                if isinstance(got, _L) and got.src == what and got.window == ("FIRST", "self._config.population_size") \
+                        and (size_only or got.order == "ASC"):
+                    verdicts.append("ok")
+                elif isinstance(got, _L):
+                    out.append(("R5-extend-and-trim" if fi is e else "R5-replace-and-trim", n,
+                                f"`{norm(n, 70)}` keeps {got.show()}" + (f" when the task direction is {d_}" if uses_dir else "")
+                                + f", not the population_size cheapest agents of `{what}`"))
+                    verdicts.append("bad")
+                else:
+                    undecided.append(f"{fi.name}: `{norm(n, 70)}` evaluates to {got}")
+                    verdicts.append("unk")
+            if verdicts and all(v_ == "ok" for v_ in verdicts):
+                hits.append(n)
         return hits
+    n_before = len(out)
     trim = trim_of(e, "self._population")
-    if len(ext) != 1 or len(trim) != 1 or ext[0].lineno > trim[0].lineno:
+    if (len(ext) != 1 or len(trim) != 1 or ext[0].lineno > trim[0].lineno) and len(out) == n_before and not undecided:
         out.append(("R5-extend-and-trim", e.node, "_extend_and_trim_population is not extend(new) followed by sort_and_trim(population, population_size)"))
     r = prog.func(f"{ABSTRACT}._replace_and_trim_population")
+    n_before = len(out)
+    n_und = len(undecided)
     trim = trim_of(r, r.params[1])
-    if len(trim) != 1:
+    if len(trim) != 1 and len(out) == n_before and len(undecided) == n_und:
         out.append(("R5-replace-and-trim", r.node, "_replace_and_trim_population is not sort_and_trim(new, population_size)"))
+    for u in undecided:
+        out.append(("UNDECIDED", e.node, u))
     return out
 
 
